@@ -9,8 +9,8 @@ from ..ref.printer import Printer
 
 LETTERS = ["X", "y", "E", "F", "Z", "i", "W"]
 NUMS = ["", "5", "-5", "+5", "5.", ".5", "-.5", "05.50", "0"]
-SEPS = ["", " "]
-WORDS = [(l, s1, v) for l in LETTERS for s1 in SEPS for v in NUMS if not (v == "" and s1 == " ")]
+SEPS = ["", " ", "\t"]
+WORDS = [(l, s1, v) for l in LETTERS for s1 in SEPS[:2] for v in NUMS if not (v == "" and s1 == " ")]
 RULE = ("every sequence of up to N words over the letters {X y E F Z i W} x number spellings {none, 5, -5, +5, 5., .5, "
         "-.5, 05.50, 0} x {no space, space} between letter and number and between words (repeated letters "
         "included); the parser's letter/value pairs are compared with an independent character-level reading, and "
